@@ -7,6 +7,7 @@ import (
 	"sort"
 	"strings"
 	"sync"
+	"sync/atomic"
 	"time"
 
 	"golang.org/x/tools/go/packages"
@@ -104,6 +105,8 @@ type PathSample struct {
 }
 
 type Report struct {
+	Witnesses    []*Witness
+	maxWitness   int
 	Outcomes     []*PathOutcome
 	Entry        string
 	Paths        int
@@ -149,6 +152,9 @@ func (r *Report) add(pr *PathResult) {
 	r.Ends[pr.End]++
 	if pr.Outcome != nil {
 		r.Outcomes = append(r.Outcomes, pr.Outcome)
+	}
+	if pr.Witness != nil && len(r.Witnesses) < r.maxWitness {
+		r.Witnesses = append(r.Witnesses, pr.Witness)
 	}
 	if pr.EndMsg != "" {
 		if _, ok := r.EndMsgs[pr.End]; !ok || pr.End == "unsupported" || pr.End == "panic" {
@@ -264,11 +270,27 @@ func (p *Program) RunPathBody(entry *ssa.Function, body func(m *Machine), opt *O
 			m.CallFunction(entry, nil, nil)
 		}
 		m.Res.End = "ok"
+		if opt.Witnesses > 0 && len(m.Res.Covers) > 0 && opt.WitnessLeft != nil && atomic.AddInt32(opt.WitnessLeft, -1) >= 0 {
+			allHeld := true
+			for _, o := range m.Res.Obs {
+				if o.Status != "trivial" && o.Status != "discharged" {
+					allHeld = false
+				}
+			}
+			if allHeld {
+				if r, model := m.Sol.Check(nil, m.S.Vars, true); r == Sat {
+					m.Res.Witness = &Witness{Model: model}
+				}
+			}
+		}
 	}()
 	if m.Res.Outcome == nil && (m.Res.End == "deadlock" || m.Res.End == "goroutine-panic") {
 		m.SetOutcome(m.Res.End, nil, m.Res.EndMsg)
 	}
 	m.Res.Decisions = m.decisions
+	if m.Res.Witness != nil {
+		m.Res.Witness.Decisions = m.decisions
+	}
 	m.Res.Steps = m.steps
 	for u := range m.uninit {
 		m.Res.UninitGlobal = append(m.Res.UninitGlobal, u)
@@ -289,6 +311,9 @@ func (p *Program) ExploreHost(name string, body func(m *Machine), opt Options, w
 func (p *Program) explore(name string, entry *ssa.Function, body func(m *Machine), opt Options, workers int) *Report {
 	t0 := time.Now()
 	rep := newReport(name)
+	rep.maxWitness = opt.Witnesses
+	left := int32(opt.Witnesses * 3)
+	opt.WitnessLeft = &left
 	if opt.Budget == 0 {
 		opt.Budget = 2_000_000
 	}
